@@ -20,7 +20,7 @@ func init() {
 			`R02.6 index-space consistency: no integer flows both into a use as an index of the new build's file list and into a use as an index of the old build's (bowl, patcher, rediff, diff); R02.7 in the bowl, every MkdirAll of a path derived from a tlc.Dir entry is preceded on every path by Lstat of the same path. ` +
 			`R03.6 (shared) an append to the overlay bowl's work lists is protected by a completed search of the list itself. ` +
 			`R14.7 (shared) each field that OverlayPatchContext.Patch assigns is assigned before it is first read or is zero again on every success return (the bowl applies all overlays of a commit with one context). ` +
-			`R02.9 (shared with C01) where a method of the overlay bowl creates a file (O_CREATE) every path to the open removes what stands at that path first. R14.5 (shared) the old-file window of the overlay writer is inspected only below the count read. R04.7 (shared) the overlay bowl's path-keyed maps (target files by path, transpositions, ghosts) are keyed by a one-to-one image of the entry's Path. R14.9 (shared) every path to NewOverlayWriter(r, readOffset, ...) passes a Seek(readOffset, SeekStart) on r. NOT decided: that the commit result equals the new build, independence from map iteration order in applyTranspositions, kind changes (old non-empty directory -> new file).`,
+			`R02.9 (shared with C01) where a method of the overlay bowl creates a file (O_CREATE) every path to the open removes what stands at that path first. R14.5 (shared) the old-file window of the overlay writer is inspected only below the count read. R04.7 (shared) the overlay bowl's path-keyed maps (target files by path, transpositions, ghosts) are keyed by a one-to-one image of the entry's Path. R14.9 (shared) every path to NewOverlayWriter(r, readOffset, ...) passes a Seek(readOffset, SeekStart) on r. R02.2 also: transpositions complete before moves (a staged file is put in place with a plain Remove of what stands at its path; a directory of the old build there is empty only once its files were renamed away). NOT decided: that the commit result equals the new build, independence from map iteration order in applyTranspositions, kind changes (old non-empty directory -> new file).`,
 		Assumptions: []string{
 			"file-system mutators are the screw/os functions OpenFile(with write flags)/Create/Remove/RemoveAll/Rename/Mkdir/MkdirAll/Symlink/Truncate/Chmod/WriteFile, FsPool.GetWriter and Container.Prepare",
 			"index spaces are recognised from the repository's naming convention: containers/fields whose name contains 'source' denote the new build, 'target' the old build",
@@ -367,7 +367,9 @@ func runC02(c *core.Ctx) {
 			return ok && f != nil && cl.Call.StaticCallee() == f
 		})
 	}
-	pairs := [][2]string{{"ensureDirs", "applyTranspositions"}, {"ensureDirs", "applyMoves"}, {"applyTranspositions", "applyOverlays"}, {"applyTranspositions", "deleteGhosts"}}
+	// (transpositions before moves: a staged file is put in place with a plain Remove of what stands at its path; a
+	// directory of the old build there is empty only once the files in it were renamed away)
+	pairs := [][2]string{{"ensureDirs", "applyTranspositions"}, {"ensureDirs", "applyMoves"}, {"applyTranspositions", "applyOverlays"}, {"applyTranspositions", "deleteGhosts"}, {"applyTranspositions", "applyMoves"}}
 	for _, pr := range pairs {
 		a, b := phase(pr[0]), phase(pr[1])
 		if a == nil || b == nil {
